@@ -1134,5 +1134,10 @@ func TestVerifGate(t *testing.T) {
 	for i := 0; i < rounds; i++ {
 		g.verifyDirect()
 		g.gateCases()
+		// the gate as the consumer applies it over a history: a forged copy of a message whose genuine VAA was verified before
+		// must go through the gate again (C06: verification is per signature list, not per message id)
+		if i == 0 {
+			g.forgedSequence([]int{4})
+		}
 	}
 }
